@@ -96,6 +96,65 @@ HX void hx_fs_str(uint64_t op, uint64_t domain) {
    if (op >= 10) same(f, ref, "C10 observers leave the string unchanged");
 }
 
+// the core (non std::string) operations at capacities around the switch of the internal length type (255/256, 65535/65536):
+// state = length CAP-3..CAP with a symbolic tail, positions near both ends or huge, counts 0..3, CAP-1..CAP+2 or huge;
+// oracle = the same operation on a std::string, cut at the capacity.  domain != 0: documented domain (pos <= length)
+namespace {
+// content is concrete here (filler, distinct last characters): lengths, positions and counts are what is symbolic
+void mk_len(FS& f, std::string& ref, char tail) {
+   unsigned short len = (unsigned short) (CAP - (vs_u8("len") & 3));
+   char b[CAP + 1]; std::memset(b, 'x', CAP);
+   for (unsigned i = 0; i < 4 && i < CAP; ++i) b[CAP - 1 - i] = (char) (tail + i);
+   b[len] = 0;
+   f.assign(b); ref.assign(b, len);
+}
+}
+HX void hx_fs_core(uint64_t op, uint64_t domain) {
+   FS f; std::string ref; mk_len(f, ref, 'p');
+   const bool uses_p = (0x78fc0u >> op) & 1, uses_n = (0x48f4au >> op) & 1, uses_n2 = op == 11;      // ops 6-11,15-18 / 1,3,6,8-11,15,18
+   size_t p = uses_p ? vs_u64("pos") : 0, n = uses_n ? vs_u64("cnt") : 0, n2 = uses_n2 ? vs_u64("cnt2") : 0;
+   const unsigned char ch = 'q';
+   char src[4] = {'a', 'b', 'c', 0};
+   unsigned sl = vs_u8("slen"); vs_assume(sl <= 3); src[sl] = 0;
+   const std::string s(src);
+   if (op == 3 || op == 8) vs_assume(n <= s.size());       // the caller promises `count` readable characters
+   if (domain && uses_p) vs_assume(p <= ref.size());
+   // positions near both ends or huge, counts 0..3, CAP-1..CAP+2 or huge (bitwise | : one solver constraint, no path split)
+   if (uses_p) vs_assume((int) (p <= 2) | (int) ((p + 6 >= ref.size()) & (p <= ref.size() + 2)) | (int) (p >= (size_t) -2));
+   if (uses_n) vs_assume((int) (n <= 3) | (int) ((n + 1 >= (size_t) CAP) & (n <= (size_t) CAP + 2)) | (int) (n >= (size_t) -2));
+   if (uses_n2) vs_assume((int) (n2 <= 3) | (int) ((n2 + 1 >= (size_t) CAP) & (n2 <= (size_t) CAP + 2)) | (int) (n2 >= (size_t) -2));
+   auto cap_n = [](size_t k) { return k > (size_t) CAP + 2 ? (size_t) CAP + 2 : k; };      // counts beyond the capacity all behave alike for the oracle
+   switch (op) {
+   case 0: f.assign(src); same(f, s, "C11 assign(const char*)"); break;
+   case 1: f.append(n, (char) ch); if (domain) same(f, ref + std::string(cap_n(n), (char) ch), "C11 append(count,ch)"); else same(f, std::string(f.c_str()), "C10"); break;
+   case 2: f.append(src); same(f, ref + s, "C11 append(const char*)"); break;
+   case 3: f.append(src, n); if (domain) same(f, ref + s.substr(0, n), "C11 append(const char*,count)"); else same(f, std::string(f.c_str()), "C10"); break;
+   case 4: f.push_back((char) ch); same(f, ref + (char) ch, "C11 push_back"); break;
+   case 5: f.pop_back(); same(f, ref.empty() ? ref : ref.substr(0, ref.size() - 1), "C11 pop_back"); break;
+   case 6: f.insert(p, n, (char) ch); if (domain) same(f, std::string(ref).insert(p, cap_n(n), (char) ch), "C11 insert(index,count,ch)"); else same(f, std::string(f.c_str()), "C10"); break;
+   case 7: f.insert(p, src); if (domain) same(f, std::string(ref).insert(p, s), "C11 insert(index,const char*)"); else same(f, std::string(f.c_str()), "C10"); break;
+   case 8: f.insert(p, src, n); if (domain) same(f, std::string(ref).insert(p, s, 0, n), "C11 insert(index,const char*,count)"); else same(f, std::string(f.c_str()), "C10"); break;
+   case 9: f.erase(p, n); if (domain) same(f, std::string(ref).erase(p, n), "C11 erase(index,count)"); else same(f, std::string(f.c_str()), "C10"); break;
+   case 10: f.replace(p, n, src); if (domain) same(f, std::string(ref).replace(p, n, s), "C11 replace(pos,count,const char*)"); else same(f, std::string(f.c_str()), "C10"); break;
+   case 11: f.replace(p, n, n2, (char) ch); if (domain) same(f, std::string(ref).replace(p, n, cap_n(n2), (char) ch), "C11 replace(pos,count,count2,ch)"); else same(f, std::string(f.c_str()), "C10"); break;
+   case 12: { FS g; std::string gref; mk_len(g, gref, 'A'); f.swap(g); same(f, gref, "C11 swap"); same(g, ref, "C11 swap"); break; }
+   case 13: { FS g; std::string gref; mk_len(g, gref, 'A'); f.append(g); same(f, ref + gref, "C11 append(FixedString)"); break; }
+   case 14: { FS g(f); same(g, ref, "C11 copy construction"); FS h; h = f; same(h, ref, "C11 copy assignment"); break; }
+   case 15: { char dest[8]; std::memset(dest, '#', sizeof dest); vs_assume(n <= 6); size_t r = f.copy(dest, n, p);
+              if (domain && p <= ref.size()) { std::string w = ref.substr(p, n); vs_assert(r == w.size() && std::memcmp(dest, w.data(), r) == 0, "C11 copy(dest,count,pos)"); }
+              vs_assert(dest[6] == '#' && dest[7] == '#' && (r <= 6), "C10 copy() writes at most count characters");
+              same(f, ref, "C10 observers leave the string unchanged"); break; }
+   case 16: { size_t r = f.find((char) ch, p); if (domain) vs_assert(r == ref.find((char) ch, p), "C11 find(ch,pos)"); same(f, ref, "C10 observers leave the string unchanged"); break; }
+   case 17: { size_t r = f.rfind((char) ch, p); if (domain) { vs_assume(p < ref.size()); vs_assert(r == ref.rfind((char) ch, p), "C11 rfind(ch,pos)"); } same(f, ref, "C10 observers leave the string unchanged"); break; }
+   case 18: { int r = f.compare(p, n, src); if (domain) vs_assert(sgn(r) == sgn(ref.compare(p, n, s)), "C11 compare(pos,count,const char*)"); same(f, ref, "C10 observers leave the string unchanged"); break; }
+   case 19: { f.clear(); same(f, "", "C11 clear"); f.append(src); same(f, s, "C11 append after clear"); break; }
+   case 20: { size_t k = 0; std::string seen; for (auto it = f.begin(); it != f.end() && k <= (size_t) CAP; ++it, ++k) if (k + 4 >= ref.size()) seen += *it;
+              vs_assert(k == ref.size() && seen == ref.substr(ref.size() >= 4 ? ref.size() - 4 : 0), "C11 forward iteration visits exactly the characters");
+              k = 0; char first = 0; for (auto it = f.rbegin(); it != f.rend() && k <= (size_t) CAP; ++it, ++k) if (k == 0) first = *it;
+              vs_assert(k == ref.size() && (ref.empty() || first == ref.back()), "C11 reverse iteration visits exactly the characters"); break; }
+   }
+}
+
 // long std::string arguments (lengths around 256 / 65536, where the internal 8/16-bit length type would wrap):
 // the first CAP+1 characters are symbolic, the rest is filler.  Driver passes the concrete source length.
 HX void hx_fs_long(uint64_t op, uint64_t srclen) {
